@@ -61,6 +61,15 @@ def _client(args):
                 problems.append("client %d (uid %d, a member of groups 700..707 in every version of the group database) was refused a "
                                 "credential restricted to one of them while the group map was being refreshed: %s"
                                 % (idx, uid, d7 and (d7["error_num"], d7["error_str"])))
+        if t_min and not (idx % 12 == 0 and idx < 40):
+            # ... and every other client asks on behalf of one of those always-listed users each round (acting under that user's
+            # uid for this one request), so that a group map that is incomplete for a moment is met by some request
+            su = 1000 + 12 * ((idx + r) % 4)
+            e9, st = rig.encode(sock, uid=uid, gid=gid, auth_gid=700 + (idx + r) % 8, data=payload)
+            d9, st = rig.decode(sock, e9["data"], uid=su, gid=2999) if e9 and e9["error_num"] == 0 else (None, st)
+            if d9 is not None and (d9["error_num"] != 0 or d9["data"] != payload):
+                problems.append("uid %d, a member of groups 700..707 in every version of the group database, was refused a credential restricted to "
+                                "gid %d while the group map was being refreshed: %s" % (su, 700 + (idx + r) % 8, (d9["error_num"], d9["error_str"])))
         # an unauthorized peek at somebody else's restricted credential must fail with MY ids in the message
         d2, st = rig.decode(sock, e["data"], uid=uid + 1, gid=gid)
         if d2 is None or d2["error_num"] != 18 or ("UID=%d" % (uid + 1)) not in d2["error_str"] or d2["data_len"] != 0:
@@ -199,16 +208,34 @@ def run_load(ctx, exe, label, nthreads, nclients, rounds, sighup):
     problems = []
     try:
         t0 = time.time()
-        res = pool.map_async(_client, [(d.sock, i, rounds, shared["data"], ctx.seed * 1000 + i, t0 + (8.0 if ctx.thorough else 3.0))
+        res = pool.map_async(_client, [(d.sock, i, rounds, shared["data"], ctx.seed * 1000 + i, t0 + ((12.0 if ctx.thorough else 5.5) if sighup else (8.0 if ctx.thorough else 3.0)))
                                        for i in range(nclients)])
         # misbehaving clients at the same time (their descriptors are closed on the daemon's error path while others connect)
         hpool = multiprocessing.Pool(5)
-        hres = hpool.map_async(_hostile, [(d.sock, t0 + (8.0 if ctx.thorough else 3.0), ctx.seed * 31 + k) for k in range(5)])
+        hres = hpool.map_async(_hostile, [(d.sock, t0 + ((12.0 if ctx.thorough else 5.5) if sighup else (8.0 if ctx.thorough else 3.0)), ctx.seed * 31 + k) for k in range(5)])
+        # SIGHUPs in bursts (every 50 ms: refreshes requested while one is running) alternating with SIGHUPs AIMED at a running
+        # periodic refresh (it starts --group-update-time = 1 s after the previous rebuild was logged and takes ~0.1 s)
+        phase, phase_t, found, aim_at, aims = "burst", time.time(), 0, None, 0
         while not res.ready():
             if sighup:
-                d.write_nss(version(2 + int(time.time() * 10) % 3))
-                d.p.send_signal(signal.SIGHUP)
-            time.sleep(0.05)
+                now = time.time()
+                if phase == "burst":
+                    d.write_nss(version(2 + int(now * 10) % 3))
+                    d.p.send_signal(signal.SIGHUP)
+                    time.sleep(0.04)
+                    if now - phase_t > 0.6:
+                        phase, aims, aim_at, found = "aim", 0, None, d.log_text().count("Found ")
+                else:
+                    n_found = d.log_text().count("Found ")
+                    if n_found > found:
+                        found, aim_at = n_found, now + 1.0 + 0.045
+                    if aim_at is not None and now >= aim_at:
+                        d.write_nss(version(2 + int(now * 10) % 3))
+                        d.p.send_signal(signal.SIGHUP)
+                        aim_at, aims = None, aims + 1
+                        if aims >= 3:
+                            phase, phase_t = "burst", time.time()
+            time.sleep(0.01)
             if time.time() - t0 > 120:
                 problems.append("load did not finish within 120 s (%s)" % label)
                 break
